@@ -96,6 +96,9 @@ class Program:
             pre = {'req': '', 'opt': '*', 'rep': '[]'}[k.rep]
             t = k.typ if k.is_leaf() else k.gotype
             tag = (' `parquet:"%s"`' % k.tag) if k.tag else ''
+            if k.tag and getattr(self, 'other_keys', False) and not k.embedded:
+                # other keys before the parquet key (the column name is the value of the PARQUET key)
+                tag = ' `json:"%s_j,omitempty" db:"-" parquet:"%s"`' % (k.name.lower(), k.tag)
             if k.embedded:
                 return '\t%s%s' % (t, tag)
             return '\t%s %s%s%s' % (k.name, pre, t, tag)
@@ -714,8 +717,9 @@ def decorate_embed_shared(base, name, places):
     return Program(name, kids)
 
 
-def decorate_embed(base, name, start, end, twice=False):
-    """Replace top-level members [start:end) by an embedded struct holding them."""
+def decorate_embed(base, name, start, end, twice=False, tag=None):
+    """Replace top-level members [start:end) by an embedded struct holding them (tag: a parquet tag on the
+    embedded member itself - it names nothing, the fields are still promoted)."""
     kids = _clone(base.kids)
     _mark_paths(kids, [])
     run = kids[start:end]
@@ -723,7 +727,7 @@ def decorate_embed(base, name, start, end, twice=False):
         inner = F('EmbIn', kids=run, embedded=True)
         emb = F('EmbOut', kids=[inner], embedded=True)
     else:
-        emb = F('Emb', kids=run, embedded=True)
+        emb = F('Emb', kids=run, embedded=True, tag=tag)
     kids[start:end] = [emb]
     return Program(name, kids)
 
